@@ -58,6 +58,23 @@ func SetAgeHeader(resp *http.Response, clock Clock, age *Age) {
 	resp.Header.Set("Age", strconv.Itoa(int(adjusted/time.Second)))
 }
 
+// StripNoCacheFields removes the header fields named by a qualified no-cache
+// response directive (RFC 9111 §5.2.2.4) from a stored response that is about
+// to be reused without successful validation.
+func StripNoCacheFields(h http.Header, ccResp CCResponseDirectives) {
+	fields, present := ccResp.NoCache()
+	if !present {
+		return
+	}
+	seq, qualified := fields.Value()
+	if !qualified {
+		return
+	}
+	for field := range seq {
+		h.Del(field)
+	}
+}
+
 // hopByHopHeaders returns a map of hop-by-hop headers that should be removed
 // from the response before caching or forwarding it (RFC 9111 §3.1).
 func hopByHopHeaders(respHeader http.Header) map[string]struct{} {
